@@ -444,17 +444,16 @@ func runC13Dup(c *Ctx) {
 			}
 		}
 	}
-	var store *ssa.MapUpdate
-	var app *ssa.Call
+	var stores, apps []ssa.Instruction
 	eachInstr(fn, func(_ *ssa.BasicBlock, _ int, in ssa.Instruction) {
 		switch x := in.(type) {
 		case *ssa.MapUpdate:
 			if x.Map == lookup.X {
-				store = x
+				stores = append(stores, x)
 			}
 		case *ssa.Call:
 			if bi, ok := x.Call.Value.(*ssa.Builtin); ok && bi.Name() == "append" && strings.Contains(typeStr(x.Type()), "workflowKeyVal") {
-				app = x
+				apps = append(apps, x)
 			}
 		}
 	})
@@ -462,9 +461,22 @@ func runC13Dup(c *Ctx) {
 		c.bad("(*parser).parseMapping|duplicate test", lookup.Pos(), "the result of the membership test does not decide a branch")
 	} else {
 		seen := okIf.Block().Succs[0]
+		notSeen := okIf.Block().Succs[1]
+		// the rest of the iteration on the path of a key already seen: everything reachable from the true successor of the
+		// test without passing the head of the key loop (the innermost loop around the test) again
+		stop := map[*ssa.BasicBlock]bool{}
+		var head *ssa.BasicBlock
+		for _, h := range loopHeaders(fn) {
+			if body := naturalLoop(h); body[lookup.Block()] && (head == nil || naturalLoop(head)[h]) {
+				head = h
+			}
+		}
+		if head != nil {
+			stop[head] = true
+		}
+		sameIter := reachableBlocks([]*ssa.BasicBlock{seen}, stop)
 		reports := false
-		region := reachableBlocks([]*ssa.BasicBlock{seen}, map[*ssa.BasicBlock]bool{lookup.Block(): true})
-		for b := range region {
+		for b := range sameIter {
 			if !(b == seen || seen.Dominates(b)) {
 				continue
 			}
@@ -476,25 +488,34 @@ func runC13Dup(c *Ctx) {
 				}
 			}
 		}
-		skips := true
-		for _, in := range []ssa.Instruction{store, app} {
-			if in == nil {
-				continue
-			}
-			if in.Block() == seen || seen.Dominates(in.Block()) {
-				skips = false // stored on the already-seen branch
+		// neither the append to the result nor the store into the set is reached in the iteration of a key already seen
+		var leaked ssa.Instruction
+		for _, in := range append(append([]ssa.Instruction{}, stores...), apps...) {
+			if sameIter[in.Block()] {
+				leaked = in
 			}
 		}
-		if reports && skips {
-			c.ok("(*parser).parseMapping|duplicate test", lookup.Pos(), "a key already seen is reported and skipped")
-		} else {
-			c.bad("(*parser).parseMapping|duplicate test", lookup.Pos(), "the branch for an already seen key does not report it and continue")
+		switch {
+		case head == nil || seen == notSeen:
+			c.bad("(*parser).parseMapping|duplicate test", lookup.Pos(), "the membership test does not separate the keys already seen from new ones inside a key loop")
+		case !reports:
+			c.bad("(*parser).parseMapping|duplicate test", lookup.Pos(), "the branch for an already seen key does not report it")
+		case leaked != nil:
+			c.bad("(*parser).parseMapping|duplicate test", leaked.Pos(), "a key already seen is reported but the iteration goes on to store it (at "+c.P.Pos(leaked.Pos())+"): the duplicate entry is kept or replaces the remembered position")
+		default:
+			c.ok("(*parser).parseMapping|duplicate test", lookup.Pos(), "a key already seen is reported and neither the append nor the store into the set is reachable before the next key")
 		}
-		notSeen := okIf.Block().Succs[1]
-		if app != nil && store != nil && (app.Block() == notSeen || notSeen.Dominates(app.Block())) && (store.Block() == notSeen || notSeen.Dominates(store.Block())) {
-			c.ok("(*parser).parseMapping|store after test", app.Pos(), "the entry is appended and remembered only after the duplicate test said it is new")
+		// every append and every store lies on the not-seen side of the test only
+		after := len(apps) > 0 && len(stores) > 0 && seen != notSeen
+		for _, in := range append(append([]ssa.Instruction{}, stores...), apps...) {
+			if !(in.Block() == notSeen || notSeen.Dominates(in.Block())) || sameIter[in.Block()] {
+				after = false
+			}
+		}
+		if after {
+			c.ok("(*parser).parseMapping|store after test", apps[0].Pos(), "the entry is appended and remembered only on the path on which the duplicate test said it is new")
 		} else {
-			c.bad("(*parser).parseMapping|store after test", lookup.Pos(), "the entry is stored before (or without) the duplicate test")
+			c.bad("(*parser).parseMapping|store after test", lookup.Pos(), "the entry is stored before the duplicate test, without it, or also on the path of a key already seen")
 		}
 	}
 	// the key that is tested: the scalar's text, lower-cased exactly when the mapping is not case-sensitive - written inline
